@@ -41,6 +41,7 @@ type KnownFinding struct {
 	Harness  string `json:"harness,omitempty"`
 	Label    string `json:"label,omitempty"`
 	Region   string `json:"region,omitempty"` // SMT-LIB Bool expression over harness input names
+	RegionID string `json:"region_id,omitempty"` // or: a region predicate the harness registers with h.Region(id, cond)
 	What     string `json:"what"`
 	Commit   string `json:"commit,omitempty"`
 }
